@@ -2,6 +2,7 @@ package checks
 
 import (
 	"fmt"
+	"regexp"
 	"strings"
 
 	"pgregory.net/rapid"
@@ -30,6 +31,7 @@ type C07Case struct {
 	InSubCol string `json:"in_sub_col,omitempty"`
 	Not      bool   `json:"not,omitempty"`
 	ExPred   *sq.E  `json:"ex_pred,omitempty"` // EXISTS predicate over element + outer columns
+	Collide  bool   `json:"collide,omitempty"` // the nested array is called t2 like a table of the document; missing / NULL in some rows
 }
 
 func init() {
@@ -399,6 +401,33 @@ func genC07(t *rapid.T) any {
 		c.Outer = fmt.Sprintf("SELECT %s, %s FROM t WHERE %s (SELECT %s FROM %s WHERE %s)", sc.k, sc.s, kw, sc.p, sc.items, sq.Render(pred, nil))
 		c.InCol = sc.items
 	}
+	if (c.Form == "sel-sub" || c.Form == "in-sub" || c.Form == "exists") && rapid.IntRange(0, 3).Draw(t, "collide") == 0 {
+		// the nested array bears the name of a table of the document (t2) and is missing or NULL in some rows: a
+		// sub query over it reads the row's array or nothing, never the table of the enclosing document
+		re := regexp.MustCompile(`\b` + regexp.QuoteMeta(sc.items) + `\b`)
+		c.Sub = re.ReplaceAllString(c.Sub, "t2")
+		c.Outer = re.ReplaceAllString(c.Outer, "t2")
+		if c.InCol == sc.items {
+			c.InCol = "t2"
+		}
+		rows, _ := c.Doc["t"].([]any)
+		for i, r := range rows {
+			rm, ok := r.(map[string]any)
+			if !ok {
+				continue
+			}
+			v := rm[sc.items]
+			delete(rm, sc.items)
+			switch rapid.IntRange(0, 3).Draw(t, fmt.Sprintf("collide.r%d", i)) {
+			case 0: // missing
+			case 1:
+				rm["t2"] = nil
+			default:
+				rm["t2"] = v
+			}
+		}
+		c.Collide = true
+	}
 	return c
 }
 
@@ -432,6 +461,9 @@ func emptyAsNil(v any) any {
 
 func checkC07(c *C07Case) Result {
 	res := Result{Labels: []string{"form:" + c.Form}}
+	if c.Collide {
+		res.Labels = append(res.Labels, "nested-array-named-like-a-document-table")
+	}
 	if strings.HasPrefix(c.Composed, "WITH t2 AS") || strings.Contains(c.Composed, "), t2 AS (") {
 		res.Labels = append(res.Labels, "cte-named-like-a-document-table")
 	}
